@@ -469,6 +469,24 @@ def predict_bits(text):
     return worst
 
 
+def predict_operands(a, op, b):
+    """Predicted result size in bits of `a op b` from the operand values alone."""
+    la, lb = _bits(a), _bits(b)
+    if op == "**" and isinstance(b, int) and not isinstance(b, bool):
+        return la * max(b, 1) if b > 0 else 64
+    if op == "<<" and isinstance(b, int):
+        return la + max(b, 0)
+    if op == "*":
+        if isinstance(a, str) and isinstance(b, int):
+            return la * max(b, 0)
+        if isinstance(b, str) and isinstance(a, int):
+            return lb * max(a, 0)
+        return la + lb
+    if op == "+":
+        return la + lb
+    return max(la, lb) + 1
+
+
 OP_NAMES = {"+": "Add", "-": "Sub", "*": "Mult", "/": "Div", "//": "FloorDiv", "%": "Mod", "**": "Pow", "<<": "LShift",
             ">>": "RShift", "|": "BitOr", "&": "BitAnd", "^": "BitXor", "==": "Eq", "!=": "NotEq", "<": "Lt", "<=": "LtE",
             ">": "Gt", ">=": "GtE", "and": "And", "or": "Or", "in": "In", "not in": "NotIn", "is": "Is", "is not": "IsNot"}
@@ -603,8 +621,30 @@ class Monitors:
             prev = mon._cur_fold
             mon._cur_fold = fold
             n0 = len(mon.evals)
+            # cost model on the operands, before anything is computed (works for any implementation of the fold)
+            big = None
+            try:
+                if fold["st1"] == REGULAR and fold["st2"] == REGULAR and fold["t1"] in PRIMITIVE_TYPES and fold["t2"] in PRIMITIVE_TYPES:
+                    a = getattr(state1, "value", None)
+                    b = getattr(state2, "value", None)
+                    a = int(a) if fold["t1"] == "%int" and not isinstance(a, int) and str(a).lstrip("-").isdigit() else a
+                    b = int(b) if fold["t2"] == "%int" and not isinstance(b, int) and str(b).lstrip("-").isdigit() else b
+                    bits = predict_operands(a, fold["operator"], b)
+                    if bits > BIG_BITS:
+                        big = {"event": "big-fold-attempted", "operator": OP_NAMES.get(fold["operator"], fold["operator"]), "bits": bits,
+                               "text": f"{_plain(a)!r} {fold['operator']} {_plain(b)!r}"[:300]}
+                        mon._side(big)
+            except Exception:
+                pass
             try:
                 res = orig_two(self_, stmt, state1, state2, defined_symbol)
+                if big is not None:
+                    for idx in (res or ()):
+                        v = getattr(self_.frame.symbol_state_space[idx], "value", None)
+                        if _bits(v) > BIG_BITS:
+                            ev = dict(big, event="big-fold-produced", result_bits=_bits(v))
+                            mon.big.append(ev)
+                            mon._side(ev)
                 out = []
                 for idx in (res or ()):
                     s = self_.frame.symbol_state_space[idx]
